@@ -197,10 +197,15 @@ def e2e_case(args):
         orig.file_meta.TransferSyntaxUID = getattr(U, label_name)
         orig.file_meta.MediaStorageSOPClassUID = orig.SOPClassUID
         orig.file_meta.MediaStorageSOPInstanceUID = orig.SOPInstanceUID
+        ref = orig
         if chunk_send:
             d = tempfile.mkdtemp(prefix="verif_c25_")
             path = os.path.join(d, "x.dcm")
             orig.save_as(path, enforce_file_format=True)
+            # what the sender has to deliver is what the FILE holds: a file written in Implicit VR does not carry the VR of
+            # private / unknown elements, so the reference is the data set as read back from it, not the in-memory original
+            ref = dcmread(path)
+            expected_raw = encode(ref, ts.is_implicit_VR, ts.is_little_endian, ts.is_deflated)
             try:
                 st = a.send_c_store(path)
             finally:
@@ -211,10 +216,10 @@ def e2e_case(args):
         out["store_status"] = getattr(st, "Status", None) if st else None
         out["expected_raw_len"] = len(expected_raw)
         out["raw_ok"] = got.get("raw") == expected_raw
-        out["ds_ok"] = got.get("ds") == canon(orig, ts)
+        out["ds_ok"] = got.get("ds") == canon(ref, ts)
         out["exc"] = got.get("exc")
         if chunk_recv:
-            out["file_ds_ok"] = got.get("file_ds") == canon(orig, ts)
+            out["file_ds_ok"] = got.get("file_ds") == canon(ref, ts)
             out["file_tail_ok"] = bool(got.get("file")) and got["file"].endswith(expected_raw) and got["file"][:132] == b"\x00" * 128 + b"DICM"
             out["full_ok"] = got.get("full") == got.get("file")
         else:
